@@ -27,11 +27,17 @@ RULE = ('script trees: 1..8 directories (depth <= 5, names incl. blanks, dots, a
         'under test (does a nameless option string raise ValueError?) is probed on the real function; the model runs as that '
         'variant and the finding C19-x-alias-empty-name applies only to the unrepaired one - on the repaired one an accepted '
         'nameless declaration is reported with the command line whose two spellings differ.  A case is non-trivial when the tree has a nested submodule or a rejected/../ path '
-        '(scripts) resp. at least one accepted declaration and one option token (arguments); distinct by exact text.')
+        '(scripts) resp. at least one accepted declaration and one option token (arguments); distinct by exact text. '
+        'Sibling projects: a near-prefix family of directory names (app/apputil, lib/lib64, a/ab ...) plus a control name, '
+        'optionally below 1-2 parents; 1-3 scripted directories compiling own files and siblings\' files through ../ as '
+        'executable/library (default intermediate directory or intermediate_dir=), object_file(directory=), '
+        'copy_file(directory=).')
 TRUSTED = ('Python semantics of exec / name lookup beyond globals-then-builtins; argparse (only the registration, '
            'defaults and long-option parsing fragment is modelled, checked against the real parser each run)',
            'os.path.expanduser modelled as the identity (no generated path starts with a tilde of an existing user)',
            'direct oracles: unique-value provenance of every read/export, os.path.normpath on the real scratch tree',
+           'sibling-directory oracle: the documented placement rule written on component lists (predicted_within in harness/c19.py: '
+           'path relative to the parent of the output directory, PAR per step up)',
            'variant detection: the probe (harness/c19.py alias_variant) calls the real add_user_argument of the tree under test '
            'with a nameless second option string and looks at ValueError / the registered strings; an undecidable probe is '
            'reported, not assumed')
